@@ -60,6 +60,21 @@ theorem specific_before_sets (regs : List String) (gz : Int × Int) (v : Variant
   | decline => exact hm.elim
   | hard => exact hm.elim
 
+/-- … and the disallowed list is about combinations made from the operand sets only: whatever the `operand_sets`
+    section (its sets, its disallowed list, absent altogether) says, an explicitly listed combination that matches is
+    the match of the variant -/
+theorem explicit_combination_ignores_disallowed (regs : List String) (gz : Int × Int) (v : VariantCfg) (fs : List Form)
+    (count : Nat) (m : Matched) (hc : v.count = some count) (hne : ¬ (count = 0 ∧ fs = []))
+    (hs : matchSpecific regs gz count v.specific fs = .ok m) (sets' : Option SetsCfg) :
+    matchVariant regs gz { v with sets := sets' } fs = .ok m := by
+  have hne' : (decide (count = 0) && fs.isEmpty) = false := by
+    cases hf : fs with
+    | nil => simp_all
+    | cons a b => simp
+  unfold matchVariant
+  simp only [hc, hne', hs]
+  simp
+
 /-- disallowed combinations are skipped -/
 theorem disallowed_skipped (regs : List String) (gz : Int × Int) (v : VariantCfg) (fs : List Form) (count : Nat)
     (sc : SetsCfg) (ps : List ParsedOp) (hc : v.count = some count) (hne : ¬ (count = 0 ∧ fs = []))
